@@ -97,6 +97,7 @@ Definition spec_map (o : op) (sz : list Z) (idx : list Z) : list Z :=
   | OParen args => spec_paren_map args idx
   | OReindexed _ => idx
   | OBlocked a _ => (a + hdz idx) :: tl idx
+  | OReindexedL _ => idx
   end.
 
 Definition spec_op (o : op) (a : aview) : aview :=
